@@ -208,7 +208,7 @@ def run(ctx, widen=False):
     # >>> w_wr (wave 5): the extracted classifier K (WriterMix.k14_class) of every document, by identity
     from props import W5
     kcl = dict(zip([id(w[0]) for w in work], W5.kclasses(ctx, [w[0] for w in work], stream="kclass14")))
-    k14 = lambda d: (kcl.get(id(d)) or (None, None, None))[0]
+    k14 = lambda d: (kcl.get(id(d)) or (None, None, None, None))[3]      # k14p_class: K on the tape the real parser produces
     # <<< w_wr
     wcases, meta = [], []
     for (d, rtable, x, tape) in work:
@@ -293,7 +293,13 @@ def probe_k14(ctx):
         (D.Doc([D.Field(u(b"a"), "=", D.Arr([u(b"1")], [D.Field(u(b"b"), "=", D.Obj([D.Field(u(b"x"), "=", D.Arr([u(b"2")])), D.Field(u(b"c"), "<", u(b"d"))]))]))]), 0),
         (D.Doc([D.Field(u(b"a"), "=", D.Arr([u(b"1")], [D.Field(u(b"b"), "=", D.Obj([D.Field(u(b"c"), "=", u(b"d"))])), D.Field(u(b"e"), "<", u(b"f")),
                                                          D.Field(u(b"g"), "=", D.Arr([u(b"2"), u(b"3")])), D.Field(u(b"h"), "=", u(b"i"))]))]), 0),
+        # the flag is lost after `{x}`: the operator inside the SECOND container value is written by the object protocol
+        (D.Doc([D.Field(u(b"a"), "=", D.Arr([u(b"1")], [D.Field(u(b"b"), "=", D.Arr([u(b"x")])), D.Field(u(b"c"), "=", D.Obj([D.Field(u(b"d"), "<", u(b"e")), D.Field(u(b"f"), "!=", u(b"g"))])),
+                                                         D.Field(u(b"h"), ">=", D.Arr([u(b"2"), D.Arr([u(b"3")])], [D.Field(u(b"i"), "=", D.Obj([D.Field(u(b"j"), "=", u(b"k"))])), D.Field(u(b"l"), "==", u(b"m"))]))]))]), 0),
     ]
+    # the parser re-inserts the marker after an empty / array-first container value: the flag is on again (k14p = 2, k14 = 0)
+    docs.append((D.Doc([D.Field(u(b"a"), "=", D.Arr([u(b"1")], [D.Field(u(b"b"), "=", D.Arr([])), D.Field(u(b"e"), "=", D.Obj([D.Field(u(b"f"), "<", u(b"g"))]))]))]), 2))
+    docs.append((D.Doc([D.Field(u(b"a"), "=", D.Arr([u(b"1")], [D.Field(u(b"b"), "=", D.Arr([D.Arr([u(b"2")])])), D.Field(u(b"e"), "=", D.Obj([D.Field(u(b"f"), "<", u(b"g"))]))]))]), 2))
     from props import W5
     cl = W5.kclasses(ctx, [d for d, _ in docs], stream="probe_k14")
     cases = ["writer.rt\t32,1,r\t" + hexs(D.render(d, "min")) for d, _ in docs]
@@ -301,7 +307,7 @@ def probe_k14(ctx):
     for k, (d, want) in enumerate(docs):
         o = impl[len(impl) - len(cases) + k]
         r = parse_rt(o)
-        got = cl[k][0] if cl[k] else None
+        got = cl[k][3] if cl[k] else None
         if got != want:
             ctx.broken.append({"what": "classifier k14_class gives %s on the witness %d of Props/C14_mixcont.v (expected %d)" % (got, k, want)})
         ok = "t1" in r and r.get("t2") == r.get("t1") and r.get("o2") == r.get("o1")
